@@ -1,12 +1,14 @@
 """C06 - destructors and defers run exactly once, LIFO, on every scope-exit path.
 
-Theorems: coq/C06/Properties_C06.v (Mech model of the two cleanup stacks refines the structural Spec
-on the fragment that avoids the three known defect shapes; at-most-once for every program; Spec is
-LIFO/exactly-once; the three defects as `_refuted` witnesses).
+Theorems: coq/C06/Properties_C06.v (the Mech model of the two cleanup stacks - as repaired by the fix
+commits 52ea7be, 605aa41, c388113 - refines the structural Spec for ALL skeleton programs; both stacks
+restored by every statement and call; defers before destructors on every exit; at-most-once on every
+prefix; the Spec is LIFO/exactly-once).
 Tie: skeleton programs (objects, defers, blocks, if/else, loops with break/continue, calls, returns)
 printed as Cb programs with tracing constructors/destructors/defers and run on the real `main`
 (hook CB_VERIF_STACKS) vs the extracted Mech model: stdout transcript, every call-imbalance line and
-the final stack depths must agree for EVERY program (conforming or not); Mech vs Spec classifies.
+the final stack depths must agree for every program; since Mech = Spec is proved, every program is
+also a direct test of the property.
 """
 import itertools
 import json
@@ -21,23 +23,23 @@ PROP = "C06"
 LEVEL = "proof"
 META = {
     "category": "proof",
-    "technique": "Coq refinement proof (two-stack cleanup machine = structural scope-exit semantics on the defect-free fragment, "
-                 "at-most-once invariants for all programs) + extracted-model differential run against the real interpreter",
+    "technique": "Coq refinement proof (two-stack cleanup machine = structural scope-exit semantics, all programs; "
+                 "at-most-once invariant) + extracted-model differential run against the real interpreter",
     "text": "Machine-checked theorems about a function-by-function Gallina model of cleanup.cpp / statement_list_executor.cpp / "
             "control_flow_executor.cpp / return.cpp / call_impl.cpp (defer_stacks_, destructor_stacks_) over a skeleton language "
-            "(objects, defers, blocks, if/else, loops with break/continue, calls, return): on the fragment that avoids the three known "
-            "defect shapes the machine emits exactly the structural cleanup order of the property and restores both stacks after every "
-            "statement and call; for ALL programs no object is destroyed and no defer run more often than it was constructed/registered; "
-            "the structural Spec is LIFO and exactly-once; three laws are refuted on the faithful model (known findings #11, #43, #44). "
-            "The model is tied to the code on every run: exhaustive small skeletons and random deeper ones are printed as Cb programs "
-            "and executed on the real binary; transcript, CB_VERIF_STACKS imbalance lines and final depths must equal the extracted model "
-            "for every program, including the defect shapes.",
-    "note": "Trusted: Coq kernel (vm_compute for the refutation witnesses), no axioms (Print Assumptions: closed); extraction via "
+            "(objects, defers, blocks, if/else, loops with break/continue, calls, return): for ALL programs the machine emits exactly "
+            "the structural cleanup order of the property (defers LIFO then destructors LIFO at every scope exit by any path, inner "
+            "scopes first, a call's cleanup a function of the callee alone), restores both stacks after every statement and call, "
+            "destroys/runs nothing more often than constructed/registered on any prefix; the structural Spec is well bracketed "
+            "(exactly once, LIFO). The model is tied to the code on every run: exhaustive small skeletons and random deeper ones are "
+            "printed as Cb programs and executed on the real binary; transcript, CB_VERIF_STACKS imbalance lines and final depths must "
+            "equal the extracted model (= Spec) for every program.",
+    "note": "Trusted: Coq kernel, no axioms (Print Assumptions: closed; coqchk in the thorough tier); extraction via "
             "ExtrOcamlBasic+ExtrOcamlString; the model is hand-written and tied by differential testing only; the Python printer of "
-            "skeletons to Cb text; return operands are constants (finding #6 - cleanup before operand evaluation - is documented "
-            "behaviour and only checked by one fixed program); if/loop bodies are always braced; no recursion; yield/async not modelled.",
+            "skeletons to Cb text; return operands are constants (the documented order `defers, destructors, then evaluation of the "
+            "return operand` is checked by one fixed program); if/loop bodies are always braced; no recursion; yield/async not modelled. "
+            "coq/C06/Pinned.v keeps the machine of the code before the fix commits (findings #11, #43, #44) for the record.",
 }
-
 PRELUDE = """struct R { int id; };
 impl R {
     self(int k) { self.id = k; println("ctor", k); }
@@ -211,31 +213,30 @@ def run_impl(impl_dir, p, sty=0):
     return {"cls": cls, "out": lines, "imb": imb, "depths": depths, "stderr": other[:3]}
 
 
+def _obs(ok, d, t, sc, evtext):
+    ev = [x for x in evtext.split(";") if x]
+    return {"cls": "ok" if ok == "1" else "error",
+            "out": [x for x in ev if not x.startswith("imb ")],
+            "imb": [tuple(int(y) for y in x.split()[1:]) for x in ev if x.startswith("imb ")],
+            "depths": (int(d), int(t), int(sc)) if ok == "1" else None}
+
+
 def run_models(progs):
-    """Extracted model on many programs: list of dicts with the Mech and Spec observations."""
+    """Extracted model on many programs: the Mech and Spec observations, the labels of the formerly
+    defective shapes, and (diagnosis only) the machine of the code before the fix commits."""
     lines = common.run_model(PROP, "run", [ser_prog(p) for p in progs], timeout=1800)
     if len(lines) != len(progs):
         raise RuntimeError("model result count mismatch %d vs %d" % (len(lines), len(progs)))
     res = []
     for l in lines:
         f = l.split("\t")
-        mev = [x for x in f[4].split(";") if x]
-        sev = [x for x in f[6].split(";") if x]
         res.append({
             "fuel": f[0] == "FUEL" or f[5] == "FUEL",
-            "mech": {"cls": "ok" if f[0] == "1" else "error",
-                     "out": [x for x in mev if not x.startswith("imb ")],
-                     "imb": [tuple(int(y) for y in x.split()[1:]) for x in mev if x.startswith("imb ")],
-                     "depths": (int(f[1]), int(f[2]), int(f[3])) if f[0] == "1" else None},
-            "spec": {"cls": "ok" if f[5] == "1" else "error", "out": sev},
-            "safe": f[7] == "1", "shapes": {"#11": f[8] == "1", "#43": f[9] == "1", "#44": f[10] == "1"},
+            "mech": _obs(f[0], f[1], f[2], f[3], f[4]),
+            "spec": {"cls": "ok" if f[5] == "1" else "error", "out": [x for x in f[6].split(";") if x]},
+            "shapes": {"#11": f[7] == "1", "#43": f[8] == "1", "#44": f[9] == "1"},
+            "pinned": _obs(f[10], f[11], f[12], f[13], f[14]),
         })
-        if len(f) >= 16:       # machine with the three proposed repairs (coq/C06/Fixed.v), for diagnosis only
-            fev = [x for x in f[15].split(";") if x]
-            res[-1]["fixed"] = {"cls": "ok" if f[11] == "1" else "error",
-                                "out": [x for x in fev if not x.startswith("imb ")],
-                                "imb": [tuple(int(y) for y in x.split()[1:]) for x in fev if x.startswith("imb ")],
-                                "depths": (int(f[12]), int(f[13]), int(f[14])) if f[11] == "1" else None}
     return res
 
 
@@ -327,37 +328,30 @@ def exhaustive_programs(budget, depth):
                 yield renumber([mb, fb])
 
 
-def random_program(rng, maxdepth=4, safe=False, nfuncs=None):
+def random_program(rng, maxdepth=4, nfuncs=None, stress=False):
     """Random skeleton: up to 4 functions (function i calls only j > i), nesting to `maxdepth`.
-    safe=True builds only programs of the fragment proved conforming (the avoidance predicate of the
-    three known findings): no scope with both objects and defers, no return after an object/defer of its
-    own list, no return inside a loop."""
+    Nothing is avoided. stress=True raises the share of the shapes that used to be defective (scopes
+    that own both objects and defers, returns after them, returns from inside loops)."""
     nf = nfuncs or rng.choice([1, 2, 2, 3, 3, 4])
+    p_ret = 0.16 if stress else 0.10
 
     def blk(fi, depth, in_loop, top):
         out = []
         n = rng.choice([0, 1, 1, 2, 2, 3, 3, 4]) if not top else rng.choice([1, 2, 3, 3, 4, 5])
-        kind = rng.choice("od") if safe else None      # what this scope may register directly
-        seen = False
-        for _ in range(n):
+        if stress:
+            n += 1
+        for j in range(n):
             r = rng.random()
-            if r < 0.22:
-                t = kind or "o"
-                if not safe and rng.random() < 0.5:
-                    t = "d"
-                out.append((t, 0)); seen = True
-            elif r < 0.34:
-                out.append((kind or rng.choice("od"), 0)); seen = True
+            if r < 0.34:
+                out.append((rng.choice("od"), 0))
             elif r < 0.44 and fi + 1 < nf:
                 out.append(("c", rng.randint(fi + 1, nf - 1)))
-            elif r < 0.54:
-                if safe and (seen or in_loop):
-                    continue
+            elif r < 0.44 + p_ret and (j > 0 or not stress):
                 out.append(("r",)); break
-            elif r < 0.62 and in_loop:
+            elif r < 0.62 + (p_ret - 0.10) and in_loop:
                 out.append((rng.choice("bk"),)); break
             elif depth > 0:
-                k = rng.choice("BIIL")
+                k = rng.choice("BIIL" if not stress else "BIILL")
                 if k == "B":
                     out.append(("B", blk(fi, depth - 1, in_loop, False)))
                 elif k == "I":
@@ -505,13 +499,13 @@ def run(rep):
     n_exh = 0
     for k, p in enumerate(exhaustive_programs(budget, depth)):
         cases.append((p, 0 if k % 3 == 0 else 1 + (k * 7919 + seed) % 1000)); origin.append("exhaustive"); n_exh += 1
-    # (2) random deeper skeletons, half of them from the conforming fragment (avoidance predicate)
+    # (2) random deeper skeletons; nothing is avoided, half of them stress the formerly defective shapes
     n_rand = 150000 if thorough else 3000
     for k in range(n_rand):
         rng = rng_for(seed, "c06-rand", k)
-        safe = k % 2 == 0
-        cases.append((random_program(rng, rng.choice([3, 4, 4]), safe=safe), rng.randint(1, 10 ** 6)))
-        origin.append("random-safe" if safe else "random-any")
+        stress = k % 2 == 0
+        cases.append((random_program(rng, rng.choice([3, 4, 4]), stress=stress), rng.randint(1, 10 ** 6)))
+        origin.append("random-stress" if stress else "random")
     # (3) break/continue escaping a function (run-time error or caught by a caller's loop)
     for t in NONWF:
         cases.append((parse_prog(t), 0)); origin.append("escaping-break")
@@ -520,9 +514,10 @@ def run(rep):
     impls = common.pmap(lambda c: run_impl(impl, c[0], c[1]), cases)
 
     hist, shape_hist = {}, {}
-    n_conf = n_safe = n_fuel = 0
+    n_fuel = 0
     distinct = set()
     nontrivial = 0
+    n_old_defect = 0
     bad, inconsistent = [], []
     for (p, sty), o, m, i in zip(cases, origin, models, impls):
         hist[o] = hist.get(o, 0) + 1
@@ -532,45 +527,37 @@ def run(rep):
         if m["fuel"]:
             n_fuel += 1
             continue
-        conf = conforming(m)
-        n_conf += conf
-        n_safe += m["safe"]
         if first and any(not x.startswith("mark") for x in m["mech"]["out"]):
             nontrivial += 1
-        if not conf:
-            lab = "+".join(k for k, v in sorted(m["shapes"].items()) if v) or "none"
-            shape_hist[lab] = shape_hist.get(lab, 0) + 1
-            if lab == "none" and m["mech"]["cls"] == "ok":
-                inconsistent.append((p, sty, m))
-        if m["safe"] and not conf:
-            inconsistent.append((p, sty, m))
-        if o == "random-safe" and not m["safe"]:
+        lab = "+".join(k for k, v in sorted(m["shapes"].items()) if v) or "none"
+        shape_hist[lab] = shape_hist.get(lab, 0) + 1
+        if m["pinned"] != m["mech"]:
+            n_old_defect += 1
+        if not conforming(m):          # contradicts theorem cleanup_mech_refines_spec: extraction/driver trouble
             inconsistent.append((p, sty, m))
         if not impl_matches_mech(i, m["mech"]):
             bad.append((p, sty, o, m, i))
 
     rep.coverage.update({
         "evaluations": len(cases), "distinct_nontrivial": nontrivial,
-        "rule": "real interpreter (main, hook CB_VERIF_STACKS) vs extracted Coq Mech model on the same skeleton program: stdout transcript, "
-                "every CBV call-imbalance line and the final CBV stacks depths must be equal - for every program, conforming or not; "
+        "rule": "real interpreter (main, hook CB_VERIF_STACKS) vs extracted Coq Mech model (= Spec, theorem cleanup_mech_refines_spec) on the "
+                "same skeleton program: stdout transcript, every CBV call-imbalance line and the final CBV stacks depths must be equal; "
                 "distinct = distinct skeletons; non-trivial = the transcript contains at least one constructor/destructor/defer event",
         "exhaustive": True,
         "exhaustive_space": "all programs main(+one callee) with <= %d statements, nesting <= %d over {object, defer, call, return, break, continue, "
                             "block, if, loop(2)} without dead code (%d programs)" % (budget, depth, n_exh),
         "input_distribution": hist,
-        "model_conforming_to_spec": n_conf, "in_proved_fragment": n_safe,
-        "nonconforming_by_known_shape": shape_hist,
-        "avoided_known_findings": "main stream = programs of the proved fragment (safe_prog, extracted): %d; all others are compared "
-                                  "with the Mech model only and labelled by the defect shape they contain" % n_safe,
+        "programs_by_formerly_defective_shape": shape_hist,
+        "programs_on_which_the_code_before_the_fixes_misbehaved": n_old_defect,
+        "avoided_known_findings": 0,
         "fuel_exhausted": n_fuel,
         "samples": [{"prog": ser_prog(cases[j][0]), "sty": cases[j][1], "impl": impls[j], "spec_out": models[j]["spec"]["out"]}
                     for j in (min(len(cases) - 1, n_exh // 2), len(cases) - len(NONWF) - 7)],
     })
     for p, sty, m in inconsistent[:3]:
         rep.violation("model-consistency", {"prog": ser_prog(p), "sty": sty, "model": m},
-                      "extracted model contradicts its own theorems/labels on %s" % ser_prog(p), True)
+                      "extracted model contradicts theorem cleanup_mech_refines_spec on %s" % ser_prog(p), True)
 
-    # disagreements: prefer a conforming-fragment program on which the implementation breaks the Spec visibly
     def kind(i, sp):
         if sp["cls"] != i["cls"] or sp["out"] != i["out"]:
             return "transcript"
@@ -580,8 +567,7 @@ def run(rep):
 
     def rank(b):
         p, sty, o, m, i = b
-        k = kind(i, m["spec"])
-        return (not m["safe"], {"transcript": 0, "stacks": 1, None: 2}[k], size(p))
+        return ({"transcript": 0, "stacks": 1, None: 2}[kind(i, m["spec"])], size(p))
     bad.sort(key=rank)
     rep.coverage["disagreements"] = len(bad)
     reported = set()
@@ -606,44 +592,37 @@ def run(rep):
             continue
         reported.add((ser_prog(q), kind(ii, mm["spec"])))
         spec_fail = kind(ii, mm["spec"]) is not None
-        verdict = ("implementation violates the structural cleanup order: expected %r with balanced stacks, got %r imb=%r depths=%r"
-                   % (mm["spec"]["out"], ii["out"], ii["imb"], ii["depths"])) if spec_fail else \
+        like_old = impl_matches_mech(ii, mm["pinned"])
+        verdict = ("implementation violates the structural cleanup order: expected %r with balanced stacks, got %r imb=%r depths=%r%s"
+                   % (mm["spec"]["out"], ii["out"], ii["imb"], ii["depths"],
+                      " - exactly the behaviour of the code before the fix commits (a repair was reverted?)" if like_old else "")) if spec_fail else \
             "implementation agrees with the Spec on this input but not with the proved model"
         rep.violation("corr", {"prog": ser_prog(q), "sty": s2, "cb": to_cb(q, s2), "impl": ii, "mech": mm["mech"], "spec": mm["spec"],
-                               "safe": mm["safe"], "shapes": mm["shapes"], "origin": o,
-                               "impl_equals_repaired_machine_of_Fixed_v": ("fixed" in mm and impl_matches_mech(ii, mm["fixed"])),
+                               "formerly_defective_shapes": mm["shapes"], "origin": o,
+                               "impl_equals_machine_before_fixes": like_old,
                                "broken": "correspondence Mech model = interpreter cleanup stacks (carrier of every C06 theorem)"},
                       "interpreter and proved cleanup model disagree on `%s` (%s)" % (ser_prog(q), verdict),
                       no_failing_input=not spec_fail)
 
-    # documented behaviour #6: cleanup precedes the evaluation of the return operand
+    # documented order: defers, destructors, then evaluation of the return operand (docs/spec.md:1634)
     rc, o, e = common.run_cb(impl, DOC6, env={"CB_VERIF_STACKS": "1"})
     got = [l for l in o.split("\n") if l]
     rep.coverage["doc6_return_operand_after_cleanup"] = got == DOC6_EXPECT
-    if got != DOC6_EXPECT:
-        rep.violation("doc6", {"cb": DOC6, "stdout": got, "expected": DOC6_EXPECT, "rc": rc},
+    if got != DOC6_EXPECT or "call-imbalance" in e:
+        rep.violation("doc6", {"cb": DOC6, "stdout": got, "expected": DOC6_EXPECT, "rc": rc, "stderr": e[-300:]},
                       "return g(): documented order (docs/spec.md:1634: defers, destructors, then evaluation of the "
-                      "return operand) not observed: got %r" % got)
+                      "return operand) not observed or stacks unbalanced: got %r" % got)
 
-    # known findings: replay each stored input against the Spec (and the model against the implementation)
+    # known findings still open (none at the moment): replay each stored input against the Spec
     for f in common.known_findings(PROP):
         p = parse_prog(f["replay"]["prog"])
         sty = int(f["replay"].get("sty", 0))
         m = run_models([p])[0]
         i = run_impl(impl, p, sty)
-        exp = f["replay"]["expected"]
-        spec_now = {"cls": "ok", "out": exp["out"]}
-        if m["spec"]["out"] != exp["out"]:
-            rep.violation("known-replay", {"id": f["id"], "spec": m["spec"], "stored": exp},
-                          "stored expectation of known finding %s is not what the Spec says" % f["id"], True)
-        if not impl_matches_spec(i, spec_now):
+        if not impl_matches_spec(i, {"cls": "ok", "out": f["replay"]["expected"]["out"]}):
             rep.known(f["id"], f["what_fails"])
         else:
             rep.notes.append("known finding %s no longer reproduces (fixed?)" % f["id"])
-        if not impl_matches_mech(i, m["mech"]):
-            rep.violation("corr-known", {"id": f["id"], "prog": f["replay"]["prog"], "impl": i, "mech": m["mech"]},
-                          "model and implementation disagree on known-finding replay " + f["id"],
-                          impl_matches_spec(i, spec_now))
     rep.assumptions += [
         "the Mech model is tied to the C++ by differential testing (transcript + hook depths), not by proof",
         "objects and defers have constant ids, return operands are constants, if/loop bodies are braced, no recursion, no yield",
